@@ -98,6 +98,17 @@ inductive HKind
   | fallbackExc
   deriving DecidableEq, Repr
 
+/-- kind code used in the log for framework handlers -/
+def HKind.code : HKind → Nat
+  | .user _ => 0
+  | .waitEvent _ => 1
+  | .waitDone _ => 2
+  | .waitTick _ => 3
+  | .prepUnregComplete => 4
+  | .timer _ => 5
+  | .fallbackGE => 6
+  | .fallbackExc => 7
+
 structure Handler where
   owner : Nat
   names : List Name          -- [] = declared without names (catch-all / global)
@@ -142,6 +153,7 @@ inductive GenRec
   | wait (w : Nat)
   | exc (w : Nat) (fired : Bool)            -- `(e for e in (ExceptionWrapper(TimeoutError()),))`
   | one (v : Option Nat) (consumed : Bool)  -- `(val for val in (value,))`
+  | dead                                    -- a generator that has finished or raised
   deriving Repr
 
 /-- `_State` of one `waitEvent` call plus the variables its closures capture -/
@@ -172,6 +184,8 @@ structure TimerSt where
   comp : Nat                 -- the Timer component
   parent : Nat               -- where it registers
   expiry : Int := 0
+  created : Bool := false    -- the harness creates each Timer object at most once
+  ev : Option Nat := none    -- `Timer.event`: one event object, fired again and again
   deriving Repr
 
 /-- handler table entry: key `none` is the `'*'` bucket of `_handlers` -/
@@ -205,6 +219,9 @@ inductive Entry
   | resumed (e h : Nat) (src : Nat) (v : Collapsed) (errors : Bool)  -- caller resumed with a Value
   | timeout (e h : Nat) (caught : Bool)  -- TimeoutError thrown into the caller
   | idle (d : Int)                       -- idle wait of the fallback generator
+  | batch (n : Nat)                      -- `dispatchEvents` starts a new batch of n events
+  | exit (e h : Nat)                     -- user handler call returned (or raised)
+  | hinv (e kind owner : Nat)            -- framework handler invoked (kind code, owning component)
   deriving DecidableEq, Repr
 
 inductive Exn
